@@ -147,6 +147,39 @@ def parseDest (l : List Char) : Option (Option Sq) :=
         Sq.mk? f r)
     | _ => some none
 
+/-- the `=X` promotion suffix: `none` = `Err` (unknown promotion letter) -/
+def promoSplit (l : List Char) : Option (List Char × Option Promo) :=
+  match splitOnce l '=' with
+  | some (rest, p) =>
+    match p with
+    | ['Q'] => some (rest, some .queen)
+    | ['R'] => some (rest, some .rook)
+    | ['N'] => some (rest, some .knight)
+    | ['B'] => some (rest, some .bishop)
+    | _ => none
+  | none => some (l, none)
+
+/-- source part and destination part: at the `x`, else before the last two characters; `none` = panic
+    (`split_at(len - 2)` underflow) -/
+def splitSrcDst (body : List Char) : Option (List Char × List Char) :=
+  match splitOnce body 'x' with
+  | some (s, d) => some (s, d)
+  | none => if body.length < 2 then none else some (body.take (body.length - 2), body.drop (body.length - 2))
+
+/-- everything after the castling test and the promotion split -/
+def parseBody (c : Ctx) (body : List Char) (promo : Option Promo) : Outcome :=
+  match splitSrcDst body with
+  | none => .panic
+  | some (srcT, dstT) =>
+    match parseDest dstT with
+    | none => .panic
+    | some none => .err
+    | some (some dst) =>
+      match parseSource c srcT dst with
+      | .panic => .panic
+      | .err => .err
+      | .ok src => expectMatching c src dst promo
+
 /-- `parse_move` (after the `fix:` that trims the check suffix before testing for castling) -/
 def parse (c : Ctx) (text : String) : Outcome :=
   let l := dropSuffixChars (dropSuffixChars text.toList '+') '#'
@@ -155,34 +188,9 @@ def parse (c : Ctx) (text : String) : Outcome :=
   else if l = "O-O-O".toList then
     expectMatching c (Game.kingStart c.player) (Game.queensideCastleDest c.player) none
   else
-    let promoSplit : Option (List Char × Option Promo) :=
-      match splitOnce l '=' with
-      | some (rest, p) =>
-        match p with
-        | ['Q'] => some (rest, some .queen)
-        | ['R'] => some (rest, some .rook)
-        | ['N'] => some (rest, some .knight)
-        | ['B'] => some (rest, some .bishop)
-        | _ => none
-      | none => some (l, none)
-    match promoSplit with
+    match promoSplit l with
     | none => .err
-    | some (body, promo) =>
-      let pieces : Option (List Char × List Char) :=
-        match splitOnce body 'x' with
-        | some (s, d) => some (s, d)
-        | none => if body.length < 2 then none else some (body.take (body.length - 2), body.drop (body.length - 2))
-      match pieces with
-      | none => .panic    -- `split_at(len - 2)` underflow
-      | some (srcT, dstT) =>
-        match parseDest dstT with
-        | none => .panic
-        | some none => .err
-        | some (some dst) =>
-          match parseSource c srcT dst with
-          | .panic => .panic
-          | .err => .err
-          | .ok src => expectMatching c src dst promo
+    | some (body, promo) => parseBody c body promo
 
 /-! ### specification (FIDE Handbook C.2–C.13; suffix `+` for check and for mate) -/
 
